@@ -105,6 +105,17 @@ fn build_bi(flavor: &str, exec: &str, max_cost: i64, buf: usize, tick: Duration,
     }
 }
 
+/// entries of the store whose bucket is due at `now_ms` (what a tick that has fired must have swept)
+fn due_left(api: &Api, now_ms: u64) -> bool {
+    let p = post(&api.0);
+    p["store"].as_array().map(|a| {
+        a.iter().any(|e| {
+            let (d, at) = (e["d"].as_u64().unwrap_or(0), e["at"].as_u64().unwrap_or(0));
+            d > 0 && d != crate::cache::HUGE_MS && (at + d) / 1000 + 1 <= now_ms / 1000
+        })
+    }).unwrap_or(false)
+}
+
 struct Api(AnyCache);
 impl Api {
     fn insert(&self, k: u64, v: u64, cost: i64, ttl: u64) -> bool {
@@ -350,7 +361,9 @@ fn instance(tx: mpsc::Sender<Value>, seed: u64, flavor: String, exec: String, ti
             let due_now = now;
             let t0 = Instant::now();
             let period = if tiny { Duration::from_millis(5) } else { tick };
-            while t0.elapsed() < period * 6 {
+            // six periods; on a starved machine the ticker's thread may simply not have run yet: then up to 10 s of grace
+            // (a tick that does not come at all still fails)
+            while t0.elapsed() < period * 6 || (t0.elapsed() < Duration::from_secs(10) && due_left(&api, now)) {
                 let v = next_val;
                 next_val += 1;
                 if api.insert(keys[0], v, 1, 3_600_000) {
@@ -519,7 +532,7 @@ fn dflt_instance(tx: mpsc::Sender<Value>, seed: u64, flavor: String, exec: Strin
     now += [1100u64, 1800, 2600][rng.gen_range(0..3)];
     verif::clock::set_virtual(now * MS);
     let t0 = Instant::now();
-    while t0.elapsed() < Duration::from_millis(4600) {
+    while t0.elapsed() < Duration::from_millis(4600) || (t0.elapsed() < Duration::from_secs(20) && due_left(&api, now)) {
         v += 1;
         if api.insert(8, v, 1, 3_600_000) {
             accepted.push(v);
